@@ -41,6 +41,8 @@ type fileData struct {
 
 	path string // path is stored as the "key", keeping it here is for generating hackpadfs.FileInfo's
 	fs   *FS
+
+	unsaved bool // the last save failed: the store does not hold what this handle holds
 }
 
 func (f *fileData) Mode() hackpadfs.FileMode {
@@ -180,7 +182,9 @@ func (fs *FS) newFile(path string, flag int, mode hackpadfs.FileMode) *file {
 }
 
 func (f *fileData) save() error {
-	return f.fs.setFile(f.path, f)
+	err := f.fs.setFile(f.path, f)
+	f.unsaved = err != nil
+	return err
 }
 
 func (f *fileData) info() hackpadfs.FileInfo {
@@ -383,6 +387,10 @@ func (f *file) Truncate(size int64) error {
 	case size < 0:
 		return &hackpadfs.PathError{Op: "truncate", Path: f.path, Err: hackpadfs.ErrInvalid}
 	case size == length:
+		if f.unsaved {
+			// an earlier save of this handle failed (the contents already have this size here, not in the store): try again
+			return f.save()
+		}
 		return nil
 	case size > length:
 		data, err := f.Data()
